@@ -127,7 +127,16 @@ def replay_cases(states, extra):
         n += 1
         fresh = (n % 2 == 0)
         s = Munkres() if fresh else solver
-        rec = to_record(n, m, alias_rows(m) if n % 3 == 0 else [list(r) for r in m], s, extra['limit'], not fresh)
+        if n % 5 == 1:
+            # the same costs in a very small unit (exact: a power of two); the optimum does not depend on the unit
+            realm = [[x * TINY for x in r] for r in m]
+        elif n % 5 == 3:
+            # costs 1 + x * 2^-30: all within a few 1e-9 of each other and ranked exactly as the integer image
+            # (adding a constant to every cost shifts every complete matching by the same amount)
+            realm = [[1.0 + x * TINY for x in r] for r in m]
+        else:
+            realm = alias_rows(m) if n % 3 == 0 else [list(r) for r in m]
+        rec = to_record(n, m, realm, s, extra['limit'], not fresh)
         # direct comparison with the spec's optimum carried in the dump
         cost = sum(m[i - 1][j - 1] for i, j in rec['result']) if not rec['raised'] else None
         pairs = rec['result']
@@ -141,12 +150,13 @@ def replay_cases(states, extra):
 
 
 # ---------------------------------------------------------------- random matrices
+TINY = 2.0 ** -30          # about 9.3e-10, exactly representable
 PALETTE30 = [30, 27, 20, 15, 9, 0]              # 30 * (1 - g) for g in 0, .1, 1/3, .5, .7, 1
 PALETTE_G = [0.0, 0.1, 1.0 / 3, 0.5, 0.7, 1.0]
 
 
 def rand_matrix(rng, big):
-    kind = rng.choice(['int', 'ties', 'dyadic', 'grade', 'zeros'])
+    kind = rng.choice(['int', 'ties', 'dyadic', 'grade', 'zeros', 'tiny', 'neartie'])
     hi = 10 if big else 7
     r, c = rng.randint(1, hi), rng.randint(1, hi)
     if rng.random() < 0.5:
@@ -160,6 +170,12 @@ def rand_matrix(rng, big):
     if kind == 'zeros':
         im = [[rng.choice([0, 0, 0, 1, 5]) for _ in range(c)] for _ in range(r)]
         return kind, im, [list(row) for row in im]
+    if kind == 'tiny':
+        im = [[rng.randint(0, 50) for _ in range(c)] for _ in range(r)]
+        return kind, im, [[x * TINY for x in row] for row in im]
+    if kind == 'neartie':
+        im = [[rng.randint(0, 9) for _ in range(c)] for _ in range(r)]
+        return kind, im, [[1.0 + x * TINY for x in row] for row in im]
     if kind == 'dyadic':
         im = [[rng.randint(0, 65535) for _ in range(c)] for _ in range(r)]
         return kind, im, [[x / 65536.0 for x in row] for row in im]
